@@ -52,9 +52,19 @@ def hand_files(draw):
     org = ch([32768, 40000, 24576, 65000])
     count = draw(st.integers(4, 14))
     templ = [ch(KINDS) for _ in range(count)]
+    nbreaks = draw(st.integers(0, 2))
+    breaks = set(draw(st.lists(st.integers(1, count - 1), max_size=nbreaks)))
+    # gaps between entries, bridged by an @org directive; only in files whose directives move nothing (what an @org
+    # in the middle of relocated code means is not documented)
+    gaps = bool(breaks) and ch([0, 0, 1])
+    gap_ranges = []
     addrs = []
     a = org
-    for k in templ:
+    for i, k in enumerate(templ):
+        if gaps and i in breaks:
+            g = ch([1, 3, 7, 256] if org < 60000 else [1, 3, 7])
+            gap_ranges.append([a, a + g])
+            a += g
         addrs.append(a)
         a += SIZES[k]
     end = a
@@ -109,8 +119,6 @@ def hand_files(draw):
     lines = ['@start', '@org']
     allmodes = ['isub', 'ssub', 'rsub', 'ofix', 'bfix', 'rfix']
     rmodes = ['rsub', 'rfix']
-    nbreaks = draw(st.integers(0, 2))
-    breaks = set(draw(st.lists(st.integers(1, count - 1), max_size=nbreaks)))
     relocating = False
     inplace_only = True
     removed = set()
@@ -120,6 +128,9 @@ def hand_files(draw):
         if i == 0 or i in breaks:
             if i:
                 lines.append('')
+            if gaps and i in breaks:
+                lines.append('@org')
+                feats.add('gap+org')
             lines.append('; Entry at %d' % x)
             if draw(st.integers(0, 5)) == 0:
                 lines.append('@equ=CONST%d=%d' % (x, ch([1, 255, x])))
@@ -130,7 +141,7 @@ def hand_files(draw):
         lines.append('@label=L%d' % x)
         r = draw(st.integers(0, 99))
         m, rm = ch(allmodes), ch(rmodes)
-        if x in removed:
+        if x in removed or (gaps and 15 <= r < 46):
             r = 99
         # directive chains (asm.rst, @bfix): '>' directives stacked before, and plain / '|' directives chained after,
         # another directive on the same instruction
@@ -215,7 +226,7 @@ def hand_files(draw):
     if draw(st.integers(0, 4)) == 0:
         lines.append('')
         lines.append('; Data')
-        lines.append('@defb=%d:1,2,"a;"' % end)
+        lines.append(ch(['@defb=%d:1,2,"a;"' % end, '@defb=%d:1,2,"a;"' % end, '@defs=%d:3,5' % end, '@defw=%d:%d,$1234' % (end, org)]))
         lines.append('@label=L%d' % end)
         lines.append('b%05d DEFB 0,0,0,0' % end)
         feats.add('defb-directive')
@@ -227,7 +238,7 @@ def hand_files(draw):
         if '@KEEP@' in lines:
             feats.add('keep')
         lines = ['@keep' if l == '@KEEP@' else l for l in lines]
-    return {'source': 'hand', 'skool': '\n'.join(lines) + '\n', 'org': org, 'end': end, 'relocating': relocating, 'inplace': inplace_only, 'feats': sorted(feats)}
+    return {'source': 'hand', 'skool': '\n'.join(lines) + '\n', 'org': org, 'end': end, 'relocating': relocating, 'inplace': inplace_only, 'feats': sorted(feats), 'gaps': gap_ranges}
 
 
 _ASM = None
@@ -340,7 +351,10 @@ def oracle(case, rec=None):
         aopts = list(aopt) + case['base'] + case['case'] + case['labels']
         mem, ra = image_from_skool2asm(s, skool, aopts, case)
         bytes_addrs = _bytes_directive_addrs(skool)
-        diff = [(a, img.get(a), mem.get(a)) for a in sorted(set(img) | set(mem)) if img.get(a) != mem.get(a) and not _in_bytes(a, bytes_addrs)]
+        # skool2bin fills a gap between entries with zeros; the ASM has an ORG there and defines nothing
+        gap_addrs = set(a for lo_, hi_ in case.get('gaps', ()) for a in range(lo_, hi_))
+        diff = [(a, img.get(a), mem.get(a)) for a in sorted(set(img) | set(mem)) if img.get(a) != mem.get(a) and not _in_bytes(a, bytes_addrs)
+                and not (a in gap_addrs and img.get(a) == 0 and a not in mem)]
         if diff:
             raise Violation('asm-vs-bin:%s' % name, 'mode %s (skool2asm %s / skool2bin %s): image differs at %s (address, skool2bin, re-assembled ASM)' % (
                 name, ' '.join(aopts), ' '.join(bopt), diff[:5]), case)
